@@ -49,9 +49,13 @@ def write_flat(dirpath, arr, parts, offset=0, ext='.dat', stem='raw', order='asc
     assert sum(parts) == arr.shape[0]
     paths = []
     i = 0
-    names = part_names(len(parts), order, stem)
+    names = part_names(len(parts), 'asc' if order == 'samebase' else order, stem)
     for k, sz in enumerate(parts):
         p = Path(dirpath) / (names[k] + ext)
+        if order == 'samebase':
+            # one folder per part, the same file name in each (recording1/continuous.dat, ...)
+            (Path(dirpath) / ('recording%d' % (k + 1))).mkdir(exist_ok=True)
+            p = Path(dirpath) / ('recording%d' % (k + 1)) / ('continuous' + ext)
         with open(p, 'wb') as f:
             f.write(header_bytes(offset))
             f.write(np.ascontiguousarray(arr[i:i + sz]).tobytes())
